@@ -104,10 +104,10 @@ structure Span where
 
 def Span.emptySpan : Span := {}
 
-def vEqual (a b : Version) : Outcome Bool := do let c ← compare a b; .ok (c == 0)
-def vLess (a b : Version) : Outcome Bool := do let c ← compare a b; .ok (c < 0)
-def vLessEq (a b : Version) : Outcome Bool := do let c ← compare a b; .ok (c ≤ 0)
-def vGreater (a b : Version) : Outcome Bool := do let c ← compare a b; .ok (c > 0)
+def vEqual (a b : Version) : Outcome Bool := do let c ← vcompare a b; .ok (c == 0)
+def vLess (a b : Version) : Outcome Bool := do let c ← vcompare a b; .ok (c < 0)
+def vLessEq (a b : Version) : Outcome Bool := do let c ← vcompare a b; .ok (c ≤ 0)
+def vGreater (a b : Version) : Outcome Bool := do let c ← vcompare a b; .ok (c > 0)
 
 /-- `newSpan`. -/
 def newSpan (min : Version) (minOpen : Bool) (max : Version) (maxOpen : Bool) : Outcome Span := do
@@ -242,9 +242,9 @@ def Span.contains (s : Span) (v : Version) (includePre : Bool) : Outcome Bool :=
   | .vector =>
     match s.min, s.max with
     | some min, some max => do
-      let c ← compare v min
+      let c ← vcompare v min
       if (c == 0 && s.minOpen) || c < 0 then .ok false else
-      let c ← compare max v
+      let c ← vcompare max v
       if (c == 0 && s.maxOpen) || c < 0 then .ok false else
       if includePre then .ok true else
       if v.sys != .maven && v.isPrerelease then
